@@ -4,6 +4,7 @@ import (
 	"bytes"
 	"fmt"
 	"go/ast"
+	"go/constant"
 	"go/printer"
 	"go/token"
 	"go/types"
@@ -245,4 +246,123 @@ func (e *Engine) CallersCheck(cc *ConstCheck) (name string, ok bool, detail stri
 		return name, false, "also used in " + strings.Join(bad, ", ")
 	}
 	return name, true, ""
+}
+
+// assertGlobalSliceLiteral: a never-reassigned package variable initialised with a slice literal of
+// constants, whose elements are never stored to through the variable in the loaded code: the slice
+// header and, in the function's ENTRY heap, the elements have their literal values (assumption:
+// no callee mutates the elements through an alias; reported).
+func (fc *FnCtx) assertGlobalSliceLiteral(key string, g *ssa.Global, cl *ast.CompositeLit, info *types.Info) {
+	e := fc.eng
+	if e.sliceElemsMutated(g) {
+		return
+	}
+	tb := fc.tb
+	st := types.Unalias(g.Type().(*types.Pointer).Elem()).Underlying().(*types.Slice)
+	if structElems(st.Elem()) {
+		return
+	}
+	var vals []*Term
+	for _, el := range cl.Elts {
+		if _, isKV := el.(*ast.KeyValueExpr); isKV {
+			return
+		}
+		tv, ok := info.Types[el]
+		if !ok || tv.Value == nil {
+			return
+		}
+		var v *Term
+		switch tv.Value.Kind() {
+		case constant.Int:
+			v = tb.BigInt(tv.Value.ExactString())
+		case constant.Bool:
+			v = tb.Bool(constant.BoolVal(tv.Value))
+		case constant.String:
+			v = fc.strLit(constant.StringVal(tv.Value))
+		default:
+			return
+		}
+		vals = append(vals, v)
+	}
+	es := fc.so.Sort(st.Elem())
+	if len(vals) > 0 && vals[0].Sort != es {
+		return
+	}
+	fc.regKey(key, "Slice")
+	c := tb.Const("h0!"+key, "Slice")
+	ekey := "E:" + es
+	esrt := ArraySort("Ref", ArraySort("Int", es))
+	fc.regKey(ekey, esrt)
+	e0 := tb.Const("h0!"+ekey, esrt)
+	n := int64(len(vals))
+	arr := tb.App("s_arr", "Ref", c)
+	facts := []*Term{tb.Eq(tb.App("s_len", "Int", c), tb.Int(n)), tb.Eq(tb.App("s_cap", "Int", c), tb.Int(n)),
+		tb.Eq(tb.App("s_off", "Int", c), tb.Int(0)), tb.Not(tb.Eq(arr, tb.Const("null", "Ref")))}
+	for i, v := range vals {
+		facts = append(facts, tb.Eq(tb.Select(tb.Select(e0, arr), tb.Int(int64(i))), v))
+	}
+	// the literal's backing array exists since package initialisation
+	fc.regKey("alloc", ArraySort("Ref", "Bool"))
+	facts = append(facts, tb.Select(tb.Const("h0!alloc", ArraySort("Ref", "Bool")), fc.objBase(arr)))
+	tb.AddAxiom("global slice "+g.Name(), tb.And(facts...))
+	fc.note("package variable " + g.String() + ": slice literal never reassigned nor element-stored in the loaded code; its elements have their literal values in the entry heap (aliased mutation by callees not considered)")
+}
+
+// sliceElemsMutated: some loaded value of the global slice has an element stored to.
+func (e *Engine) sliceElemsMutated(g *ssa.Global) bool {
+	for _, p := range e.prog.AllPackages() {
+		if !strings.HasPrefix(p.Pkg.Path(), snapdMod) {
+			continue
+		}
+		mut := false
+		seen := map[*ssa.Function]bool{}
+		var visit func(fn *ssa.Function)
+		visit = func(fn *ssa.Function) {
+			if fn == nil || seen[fn] || mut {
+				return
+			}
+			seen[fn] = true
+			for _, b := range fn.Blocks {
+				for _, in := range b.Instrs {
+					u, ok := in.(*ssa.UnOp)
+					if !ok || u.X != g {
+						continue
+					}
+					if refs := u.Referrers(); refs != nil {
+						for _, r := range *refs {
+							if ia, ok := r.(*ssa.IndexAddr); ok {
+								if rr := ia.Referrers(); rr != nil {
+									for _, x := range *rr {
+										if s, ok := x.(*ssa.Store); ok && s.Addr == ia {
+											mut = true
+										}
+									}
+								}
+							}
+						}
+					}
+				}
+			}
+			for _, a := range fn.AnonFuncs {
+				visit(a)
+			}
+		}
+		for _, m := range p.Members {
+			switch m := m.(type) {
+			case *ssa.Function:
+				visit(m)
+			case *ssa.Type:
+				for _, t := range []types.Type{m.Type(), types.NewPointer(m.Type())} {
+					ms := e.prog.MethodSets.MethodSet(t)
+					for j := 0; j < ms.Len(); j++ {
+						visit(e.prog.MethodValue(ms.At(j)))
+					}
+				}
+			}
+		}
+		if mut {
+			return true
+		}
+	}
+	return false
 }
